@@ -2,6 +2,8 @@
 
 from __future__ import annotations
 
+import numpy as np
+
 from .. import gen
 from ..core import case_nprng
 from ..drivers import index as drv
@@ -59,10 +61,81 @@ def frames_io(rec, hub, rng):
             pass
 
 
+def system_io(rec, hub, rng, i):
+    """building systems / stocks / lifetime models from existing arrays, exporting and plotting: inputs stay untouched"""
+    import os
+    import shutil
+    import tempfile
+    import importlib
+
+    from ..attach import install_export_hooks
+    from ..drivers import system as SY
+    from .c19 import fill
+
+    fd = hub.fd
+    install_export_hooks(hub)
+    ex = importlib.import_module("flodym.export")
+    d = SY.gen_def(rng, max_flows=5, max_stocks=2)
+    mfa = SY.build_system(fd, d)
+    fill(mfa, rng)
+    # a system assembled from existing arrays (the constructor must not touch them)
+    try:
+        fd.MFASystem(dims=mfa.dims, parameters=dict(mfa.parameters), processes=dict(mfa.processes), flows=dict(mfa.flows), stocks=dict(mfa.stocks))
+    except Exception:
+        pass
+    tmp = tempfile.mkdtemp(prefix="vmon-c15-")
+    try:
+        for f in (lambda: ex.convert_to_dict(mfa), lambda: ex.convert_to_dict(mfa, type="pandas"), lambda: ex.export_mfa_to_pickle(mfa, os.path.join(tmp, "m.pickle")),
+                  lambda: ex.export_mfa_flows_to_csv(mfa, os.path.join(tmp, "f")), lambda: ex.export_mfa_stocks_to_csv(mfa, os.path.join(tmp, "s"), with_in_and_out=True)):
+            try:
+                f()
+            except Exception:
+                pass
+    finally:
+        shutil.rmtree(tmp, ignore_errors=True)
+    if mfa.flows:
+        try:
+            importlib.import_module("flodym.export.sankey").PlotlySankeyPlotter(mfa=mfa, exclude_processes=[]).plot()
+        except Exception:
+            pass
+    # plotters and stock / lifetime-model construction from arrays
+    from .. import gen
+
+    U = gen.universe(fd, {"a": 2, "b": 3})
+    arr = fd.FlodymArray(dims=gen.dimset(fd, U, ("b", "a")), values=gen.values_one("dyadic", rng, (3, 2)))
+    xarr = fd.FlodymArray(dims=gen.dimset(fd, U, ("b",)), values=np.array([1.0, 2.0, 4.0]))
+    ap = importlib.import_module("flodym.export.array_plotter")
+    for cls in (ap.PlotlyArrayPlotter, ap.PyplotArrayPlotter):
+        try:
+            fig = cls(array=arr, intra_line_dim="b", linecolor_dim="a", x_array=xarr).plot()
+            if cls is ap.PyplotArrayPlotter:
+                from matplotlib import pyplot as plt
+
+                plt.close(fig)
+        except Exception:
+            pass
+    tdim = fd.Dimension(letter="t", name="time", items=[2000, 2001, 2003, 2006])
+    ds = fd.DimensionSet(dim_list=[tdim, U["a"]])
+    inflow = fd.StockArray(dims=ds, values=np.abs(gen.values_one("dyadic", rng, ds.shape)))
+    mean = fd.FlodymArray(dims=gen.dimset(fd, U, ("a",)), values=np.array([3.0, 5.0]))
+    try:
+        lm = fd.LogNormalLifetime(dims=ds, time_letter="t", mean=mean, std=1.5)
+        st = fd.InflowDrivenDSM(dims=ds, inflow=inflow, lifetime_model=lm, time_letter="t")
+        st.compute()
+        sd = fd.StockDrivenDSM(dims=ds, stock=st.stock, lifetime_model=lm, time_letter="t", solver="lapack")
+        sd.compute()
+        lm.set_prms(mean=mean, std=mean)
+    except Exception:
+        pass
+
+
 def one(rec, hub, seed, tier, kind, i):
     rng = case_nprng(seed, f"c15.{kind}", 0, i)
     if kind == "frames":
         frames_io(rec, hub, rng)
+        return
+    if kind == "system":
+        system_io(rec, hub, rng, i)
         return
     if kind == "program":
         letters = "abcd" if i % 3 else "abc"
@@ -80,7 +153,7 @@ def run(rec, hub, tier, seed, shard, nshards, budget):
     inv.register(hub, PROPS)
     rec.require(program.MP15, 100)
     n_prog = 220 if tier == "quick" else 1500
-    work = [("program", i) for i in range(n_prog)] + [("whole", i) for i in range(40 if tier == "quick" else 200)] + [("frames", i) for i in range(150 if tier == "quick" else 1000)]
+    work = [("program", i) for i in range(n_prog)] + [("whole", i) for i in range(40 if tier == "quick" else 200)] + [("frames", i) for i in range(150 if tier == "quick" else 1000)] + [("system", i) for i in range(25 if tier == "quick" else 150)]
     for w, (kind, i) in enumerate(work):
         if not budget.ok():
             break
